@@ -5,7 +5,7 @@ arguments)."""
 from . import spec_parse
 from .spec_path import normalize_path
 from . import prims
-from yarl._url import USES_RELATIVE
+from yarl._url import UNDEFINED, USES_RELATIVE
 from yarl._parse import USES_AUTHORITY
 from .prims import CUT, first_of, hash_parts
 
@@ -833,3 +833,16 @@ def joinpath_requires(u, other, encoded):
 def decoded_authority(u):
     """the decoded authority: the decoded user, password and host and the effective port, assembled as RFC 3986 3.2 says"""
     return spec_parse.make_netloc(user(u), password(u), host(u), port(u))
+
+
+def new(cls, val, encoded, strict):
+    """C19: URL(val, encoded=...): a str is parsed (auto-encoding or taken verbatim), a URL is returned
+    as it is, the pickling sentinel gives the empty URL, anything else is a TypeError.  (SplitResult
+    and str-subclass arguments are not part of this contract.)"""
+    if isinstance(val, str):
+        return pre_encoded_url(val) if encoded else encode_url(val)
+    if isinstance(val, U):
+        return val
+    if val is UNDEFINED:
+        return U("", "", "", "", "")
+    raise TypeError("Constructor parameter should be str")
